@@ -21,7 +21,7 @@ rm -f "$ROOT/.work/build.$$.log"
 mv -f "$TMPBIN" "$ROOT/.bin/$BIN"
 if [ -n "$RACE" ]; then
   RL="$ROOT/.work/race-$ID-$$"; rm -f "$RL".*
-  export GORACE="halt_on_error=0 log_path=$RL"
+  export GORACE="halt_on_error=0 exitcode=0 log_path=$RL"
   export VERIF_RACELOG="$RL"
 fi
 OUT="$ROOT/.work/out-$ID-$$.log"
